@@ -338,8 +338,10 @@ impl Components {
                         q_out_by_srv
                             .entry(e.service)
                             .or_insert_with(|| vec![0.0; self.num_steps()]);
+                        // El reparto se hace según la magnitud de la energía entregada (+) o absorbida (-)
+                        let q_out_abs: Vec<f32> = e.values.iter().map(|v| v.abs()).collect();
                         q_out_by_srv
-                            .insert(e.service, vecvecsum(&q_out_by_srv[&e.service], &e.values));
+                            .insert(e.service, vecvecsum(&q_out_by_srv[&e.service], &q_out_abs));
                     }
                 };
             }
